@@ -1,6 +1,7 @@
 // peek.go: read-only access to the pieces of RawNode state that influence transitions
 // but are not exposed by Status(): the vote tally of a candidate, electionElapsed (lease /
-// CheckQuorum bookkeeping, pass 2 only) and — the only write — pinning the randomised
+// CheckQuorum bookkeeping, pass 2 only), a leader's pendingConfIndex (its bookkeeping of the
+// one conf change that may be unapplied in its log) and — the only write — pinning the randomised
 // election timeout so that ticks never start an election on their own (elections are the
 // explicit campaign event). While a node holds a Ready (apply lag / persist lag, see evLag and
 // evPLag in cluster.go) two
@@ -26,6 +27,7 @@ var (
 	offRaft, offElapsed, offRandTimeout, offVotes uintptr
 	offMsgs, offRaftLog                           uintptr
 	offUnstSnap, offUnstEnts, offUnstOffset       uintptr // relative to *raftLog
+	offPendingConf                                uintptr
 	peekReady                                     bool
 )
 
@@ -60,6 +62,11 @@ func initPeek() {
 		fail("raft.prs.Votes")
 	}
 	offVotes = fp.Offset + fv.Offset
+	fc, ok := st.FieldByName("pendingConfIndex")
+	if !ok || fc.Type.Kind() != reflect.Uint64 {
+		fail("raft.pendingConfIndex")
+	}
+	offPendingConf = fc.Offset
 	fm, ok := st.FieldByName("msgs")
 	if !ok || fm.Type != reflect.TypeOf([]pb.Message{}) {
 		fail("raft.msgs")
@@ -93,6 +100,7 @@ func initPeek() {
 type peeked struct {
 	votes           []voteRec
 	electionElapsed int
+	pendingConf     uint64 // raft.pendingConfIndex (meaningful on a leader)
 }
 
 // inside is what a RawNode has not handed out yet: copies of the unstable entries, the
@@ -138,6 +146,7 @@ func peek(rn *raft.RawNode) peeked {
 	r := raftOf(rn)
 	var p peeked
 	p.electionElapsed = *(*int)(unsafe.Add(r, offElapsed))
+	p.pendingConf = *(*uint64)(unsafe.Add(r, offPendingConf))
 	votes := *(*map[uint64]bool)(unsafe.Add(r, offVotes))
 	for id, v := range votes {
 		p.votes = append(p.votes, voteRec{id, v})
